@@ -242,6 +242,21 @@ def base_scenarios():
          {"at": 1800, "do": "rx", "r": 1, "ty": "NON", "code": 69, "mid": 7002, "tok": {"of": 1}, "observe": 6, "payload": "02"}],
         autoreply=[{"match": {"observe": 0}, "code": 69, "observe": 4, "delay": 20, "max": 1}],
     )
+    for name, bw, it in (("active-client-observation-iterated", False, True), ("active-client-observation-blockwise", True, False),
+                         ("active-client-observation-blockwise-iterated", True, True)):
+        mk(
+            name,
+            [{"at": 0, "do": "submit", "q": 1, "r": 1, "con": True, "observe": 0, "f": 0.5, "blockwise": bw, "iterate": it},
+             {"at": 900, "do": "rx", "r": 1, "ty": "CON", "code": 69, "mid": 7001, "tok": {"of": 1}, "observe": 5, "payload": "01"},
+             {"at": 1800, "do": "rx", "r": 1, "ty": "NON", "code": 69, "mid": 7002, "tok": {"of": 1}, "observe": 6, "payload": "02"}],
+            autoreply=[{"match": {"observe": 0}, "code": 69, "observe": 4, "delay": 20, "max": 1}],
+        )
+    # a request interface whose own shutdown stalls: shutdown() returns within SHUTDOWN_TIMEOUT all the same
+    for name, stall in (("stalling-interface-never", "never"), ("stalling-interface-slow", 1500), ("stalling-interface-too-slow", 5000)):
+        mk(name, [{"at": 0, "do": "submit", "q": 1, "r": 1, "con": True, "f": 0.5},
+                  {"at": 10, "do": "rx", "r": 2, "ty": "CON", "code": 1, "mid": 77, "tok": "c1", "path": ["h", "1"]}],
+           handlers={"1": {"delay": 700, "outcome": "ok"}})
+        S[-1]["stall_interface"] = stall
     mk(
         "icmp-error-then-more",
         [
